@@ -280,8 +280,34 @@ def St.recordPacket (s : St) : St :=
   let s := { s with closeAtSet := true }
   if s.nPaths = 0 then { s with nPaths := 1 } else s
 
+/-- `change_connection_id()`: with a spare peer connection ID, retire the current one and take
+    the next; what happens without one, and whether anything is raised at all, is read off the
+    source (`AQ.Gen.Recv.changeCidRaises`, extracted from the function body on every run). -/
+def changeConnectionId (s : St) : Except String St :=
+  let situation := if s.peerCidAvailable = 0 then "empty" else "available"
+  match changeCidRaises.find? (fun r => r.1 == situation || r.1 == "always") with
+  | some (_, cls) => .error cls
+  | none =>
+    if s.peerCidAvailable = 0 then .ok s
+    else .ok { s with peerCidAvailable := s.peerCidAvailable - 1 }
+
+/-- the "handle migration" block of `receive_datagram`:
+    `if not self._is_client and context.host_cid != self.host_cid and epoch == ONE_RTT:
+         self.host_cid = context.host_cid; self.change_connection_id()`
+    — an application-level API called from inside the receive path; its exceptions are NOT
+    caught there. -/
+def migrationStep (s : St) (migrate : Bool) : Except String St :=
+  if migrate then changeConnectionId s else .ok s
+
+/-- idle timer, migration, network path, ack queue -/
+def finishPacket (s : St) (migrate : Bool) : Step :=
+  let s := { s with closeAtSet := true }
+  match migrationStep s migrate with
+  | .error cls => .stop s true (some cls)
+  | .ok s => .next s.recordPacket true
+
 /-- from `except QuicConnectionError` to the end of the loop body -/
-def afterPayload (s : St) (r : Outcome (Bool × Bool)) (idxNonzero discarded : Bool) : Step :=
+def afterPayload (s : St) (r : Outcome (Bool × Bool)) (idxNonzero discarded migrate : Bool) : Step :=
   match r with
   | .error e =>
     -- except QuicConnectionError as exc: self.close(...)
@@ -291,21 +317,21 @@ def afterPayload (s : St) (r : Outcome (Bool × Bool)) (idxNonzero discarded : B
       if s.state.isEnd ∨ s.closePending then .stop s true none else
       -- `is_probing` / `is_ack_eliciting` are unbound when the payload raised
       if idxNonzero ∨ ¬ discarded then .stop { s with closeAtSet := true } true (some "UnboundLocalError") else
-      .next s.recordPacket true
+      finishPacket s migrate
     | _, _ => .stop s true (some (errCls e))
   | .ok _ =>
     if s.state.isEnd ∨ s.closePending then .stop s true none else
-    .next s.recordPacket true
+    finishPacket s migrate
 
 /-- everything after a successful `decrypt_packet` -/
 def afterDecrypt {π : Type} (runPayload : St → Epoch → Bool → π → St × Outcome (Bool × Bool))
     (s : St) (epoch : Epoch) (cryptoRequired : Bool) (pr : Bool)
-    (dup reserved : Bool) (payload : π) (idxNonzero discarded : Bool) : Step :=
+    (dup reserved : Bool) (payload : π) (idxNonzero discarded migrate : Bool) : Step :=
   if dup then .next s pr
   else if reserved then .stop (s.close PROTOCOL_VIOLATION) pr none
   else
     afterPayload (runPayload s.connectIfFirst epoch cryptoRequired payload).1
-      (runPayload s.connectIfFirst epoch cryptoRequired payload).2 idxNonzero discarded
+      (runPayload s.connectIfFirst epoch cryptoRequired payload).2 idxNonzero discarded migrate
 
 def recvPacket {π : Type} (runPayload : St → Epoch → Bool → π → St × Outcome (Bool × Bool))
     (smallDatagram : Bool) (p : Pkt π) (s : St) (pr : Bool) : Step :=
@@ -350,6 +376,7 @@ def recvPacket {π : Type} (runPayload : St → Epoch → Bool → π → St × 
       | .other e => .stop s pr (some (errCls e))
       | .ok dup reserved payload idxNonzero discarded =>
         afterDecrypt runPayload s epoch cryptoRequired pr dup reserved payload idxNonzero discarded
+          (decide (¬ s.isClient ∧ h.dcidNotCurrent ∧ epoch = .oneRtt))
 
 def recvLoop {π : Type} (runPayload : St → Epoch → Bool → π → St × Outcome (Bool × Bool))
     (smallDatagram : Bool) : List (Pkt π) → St → Bool → St × Bool × Option String
